@@ -362,7 +362,7 @@ pub fn generate(tier: Tier) -> Vec<(String, Vec<Vec<Item>>)> {
     for c1 in CONTAINERS {
         for c2 in CONTAINERS {
             for leaf in &inner_small {
-                for s1 in [&specs[0], &specs[3]] {
+                for s1 in [&specs[0], &specs[3], &specs[4]] {
                     for s2 in [&specs[0], &specs[1], &specs[2]] {
                         let inner = Item::Fmt(c2, vec![vec![leaf.clone(), Item::Lit("é", "é")]], (*s2).clone());
                         c.push(vec![Item::Fmt(c1, vec![vec![Item::Lit("<", "<"), inner, f0("l", &none)]], (*s1).clone())]);
